@@ -12,7 +12,7 @@ roots (whoever calls ``<yacc object>.parse`` may call every ``p_*`` method and `
 may call every package method named ``m``.
 """
 import ast
-from .model import AnalysisError
+from .model import src, AnalysisError
 from .paths import walk_no_defs
 from . import sa
 
@@ -168,6 +168,21 @@ class CallGraph(object):
         for n in walk_no_defs(f):
             if n is not f and isinstance(n, ast.FunctionDef):
                 self.edges[k].add((m.name, m.qualname_of(n)))
+        # a decorator that wraps the function runs its wrapper whenever the function is called:  @coerce_number def ABS(x)
+        for d in getattr(f, 'decorator_list', []):
+            target = d.func if isinstance(d, ast.Call) else d
+            if 'register_for' in src(d):
+                continue
+            r = model.resolve_attr_chain(m, target) if isinstance(target, (ast.Name, ast.Attribute)) else None
+            if r and r[0] == 'func':
+                dk = (r[1].name, r[1].qualname_of(r[2]))
+                if dk in self.funcs:
+                    self.edges[k].add(dk)
+                    for n2 in ast.walk(r[2]):
+                        if n2 is not r[2] and isinstance(n2, ast.FunctionDef):
+                            nk = (r[1].name, r[1].qualname_of(n2))
+                            if nk in self.funcs:
+                                self.edges[k].add(nk)
         nodes = []   # body only: decorators and defaults run at definition time, not when the function is called
         for st in f.body:
             nodes.extend(ast.walk(st))
@@ -180,6 +195,18 @@ class CallGraph(object):
         for n in nodes:
             if id(n) in nested and not isinstance(n, ast.FunctionDef):
                 continue
+            # a module-level table of functions (dispatch by key): whoever reads the table may call its entries
+            if isinstance(n, ast.Name) and isinstance(n.ctx, ast.Load):
+                r = model.resolve(m, n.id)
+                if r and r[0] == 'const' and isinstance(r[3], (ast.Dict, ast.Tuple, ast.List)):
+                    elems = r[3].values if isinstance(r[3], ast.Dict) else r[3].elts
+                    for e in elems:
+                        if isinstance(e, (ast.Name, ast.Attribute)):
+                            r2 = model.resolve_attr_chain(r[1], e)
+                            if r2 and r2[0] == 'func':
+                                tk = (r2[1].name, r2[1].qualname_of(r2[2]))
+                                if tk in self.funcs:
+                                    self.edges[k].add(tk)
             # reading a property runs its getter:  self.parser  with  @property def parser(self)
             if isinstance(n, ast.Attribute) and isinstance(n.value, ast.Name) and n.value.id == selfname and owner is not None \
                     and isinstance(n.ctx, ast.Load):
